@@ -891,5 +891,10 @@ SILENT = [
     Silent("increment-through-a-local", CS, "        s.failedAttempts += 1\n        delay = s.timeoutForAttempt(s.failedAttempts)\n",
            "        nth = s.failedAttempts + 1\n        s.failedAttempts = nth\n        delay = s.timeoutForAttempt(nth)\n"),
     Silent("stop-service-local-for-deferred", CS, "        super().stopService()\n        return self._machine.stop()", "        super().stopService()\n        stopped = self._machine.stop()\n        return stopped"),
+    Silent("start-transitions-from-a-table", CS, "    Init.upon(_Client.start).to(Connecting).returns(None)\n    Connecting.upon(_Client.start).loop().returns(None)\n",
+           "    for src_, dst_ in ((Init, Connecting), (Connecting, Connecting)):\n        src_.upon(_Client.start).to(dst_).returns(None)\n"),
+    Silent("failure-accounting-in-module-helper", CS, "        ready = []\n        notReady: list[tuple[Deferred[IProtocol], Optional[int]]] = []\n        for w, remaining in s.awaitingConnected:\n            if remaining is None:\n                notReady.append((w, remaining))\n            elif remaining <= 1:\n                ready.append(w)\n            else:\n                notReady.append((w, remaining - 1))\n        s.awaitingConnected = notReady\n",
+           "        ready, s.awaitingConnected = _splitWaiters(s.awaitingConnected)\n",
+           more=[(CS, "def makeMachine() -> Callable[[_Core], _Client]:\n", "def _splitWaiters(pending):\n    due, later = [], []\n    for w, left in pending:\n        if left is not None and left <= 1:\n            due.append(w)\n        else:\n            later.append((w, left if left is None else left - 1))\n    return due, later\n\n\ndef makeMachine() -> Callable[[_Core], _Client]:\n")]),
     Silent("failure-limit-rewritten", CS, "            elif remaining <= 1:\n", "            elif not remaining > 1:\n"),
 ]
